@@ -150,6 +150,24 @@ func runC15(c *Ctx) {
 		reach, _ := fl.Reach(ups[0].Site.After(), nil, false, PathQ{Cut: cut, ToBlock: head.B})
 		c.Check(!reach, "C15-R1", m+":next upstream only after an unavailability error", ups[0].Inner.Pos(), "continue guarded by IsUnavailableError"+map[bool]string{true: " / ErrUnsupported", false: ""}[c15Optional[m]],
 			"the loop can move on to the next upstream without the error being classified as unavailable (a query error triggers failover)")
+		// every upstream gets the caller's own context (a context derived once for the whole loop
+		// would let the first upstream's timeout consume the budget of the failover upstreams)
+		sigM := fi.Obj.Type().(*types.Signature)
+		ctxParam := sigM.Params().At(0)
+		upCall := ups[0].Inner.(*ast.CallExpr)
+		ctxOK := len(upCall.Args) > 0 && objOf(info, upCall.Args[0]) == ctxParam
+		reassigned := false
+		ast.Inspect(fi.Decl.Body, func(n ast.Node) bool {
+			if as2, ok := n.(*ast.AssignStmt); ok {
+				for _, l := range as2.Lhs {
+					if o := objOf(info, l); o != nil && (o == ctxParam || (o.Name() == ctxParam.Name() && len(upCall.Args) > 0 && o == objOf(info, upCall.Args[0]) && o != ctxParam)) {
+						reassigned = true
+					}
+				}
+			}
+			return true
+		})
+		c.Check(ctxOK && !reassigned, "C15-R1", m+":each upstream is called with the caller's context", upCall.Pos(), "ctx parameter passed through", "the upstream call does not receive the method's own ctx parameter unchanged: a deadline shared by the whole loop makes every later upstream fail as soon as an earlier one timed out")
 		// early return wraps the same err with strictness
 		lits := compositeLits(info, fi.Decl.Body, "internal/promapi.FailoverGroupError")
 		good := 0
@@ -189,7 +207,25 @@ func runC15(c *Ctx) {
 			}
 			return true
 		})
-		c.Check(firstURI && appendsFailover, "C15-R1", "newFailoverGroup:uri first, then failover in order", nfg.Decl.Pos(), "configured order", "upstream list is not built as [uri, failover...]")
+		c.Check(firstURI && appendsFailover, "C15-R1", "newFailoverGroup:uri first, then failover in order", nfg.Decl.Pos(), "configured order", "upstream list is not built as [uri, failover...] by ranging over prom.Failover itself")
+		reorder := ""
+		ast.Inspect(nfg.Decl.Body, func(n ast.Node) bool {
+			if call, ok := n.(*ast.CallExpr); ok {
+				if fn := Callee(cinfo, call); fn != nil && fn.Pkg() != nil && (fn.Pkg().Path() == "sort" || fn.Pkg().Path() == "slices") {
+					for _, a := range call.Args {
+						if fieldSel(cinfo, a, "internal/config.PrometheusConfig", "Failover") {
+							switch fn.Name() {
+							case "Contains", "Index", "Clone":
+							default:
+								reorder = exprStr(call)
+							}
+						}
+					}
+				}
+			}
+			return true
+		})
+		c.Check(reorder == "", "C15-R1", "newFailoverGroup:failover list not reordered", nfg.Decl.Pos(), "order kept", "`"+reorder+"` rewrites the configured failover list")
 	}
 	// nobody reorders fg.servers
 	for _, fi := range p.AllFuncs() {
@@ -213,6 +249,44 @@ func runC15(c *Ctx) {
 			}
 			return true
 		})
+	}
+
+	// a failed slice of a range query fails the query: only cancellation (caused by an earlier failure) is ignored
+	if rq := c.MustFunc("C15-R1", "internal/promapi.Prometheus.RangeQuery"); rq != nil {
+		pm := parentMap(rq.Decl.Body)
+		n := 0
+		ast.Inspect(rq.Decl.Body, func(nd ast.Node) bool {
+			as, ok := nd.(*ast.AssignStmt)
+			if !ok || len(as.Lhs) != 1 || len(as.Rhs) != 1 {
+				return true
+			}
+			rhs, isSel := as.Rhs[0].(*ast.SelectorExpr)
+			if !isSel || rhs.Sel.Name != "err" || fieldOwner(info, rhs) != "internal/promapi.queryResult" {
+				return true
+			}
+			if t := info.TypeOf(as.Lhs[0]); t == nil || t.String() != "error" {
+				return true
+			}
+			n++
+			bad := ""
+			for _, a := range lexicalGuards(pm, as, rq.Decl.Body) {
+				ast.Inspect(a.E, func(m ast.Node) bool {
+					call, ok := m.(*ast.CallExpr)
+					if !ok {
+						return true
+					}
+					if fn := Callee(info, call); fn != nil && fn.Pkg() != nil && fn.Pkg().Path() == "errors" && fn.Name() == "Is" && len(call.Args) == 2 {
+						if o := objOf(info, call.Args[1]); o == nil || o.Pkg() == nil || o.Pkg().Path() != "context" || o.Name() != "Canceled" {
+							bad = exprStr(call)
+						}
+					}
+					return true
+				})
+			}
+			c.Check(bad == "", "C15-R1", "RangeQuery:only context.Canceled slice errors are ignored", as.Pos(), "every other slice error fails the query", "`"+bad+"` makes a slice failure disappear: the range query returns a partial or empty success instead of an unavailability error, so no failover happens and checks see `no data`")
+			return true
+		})
+		c.Check(n == 1, "C15-R1", "RangeQuery:slice errors recorded", rq.Decl.Pos(), "one recorder", itoa(n)+" stores of result.err")
 	}
 
 	// ---- R2 ----
